@@ -85,3 +85,32 @@ Example C18_resize_nonvacuous :
   let s := rrun (rinit 80%nat) [RzQuery; RzResize 100%nat; RzDeliver; RzResize 120%nat; RzTake; RzQuery; RzDeliver] in
   pending s = false /\ lst s = LWait /\ delivered s = Some 120%nat /\ cur s = 120%nat.
 Proof. vm_compute. repeat split. Qed.
+
+(* ---- listener AND WindowSize commands (Proof/ResizeModel2.v): any number of command goroutines query the size
+   concurrently with the listener.  Every report carries a size the terminal had between the report's cause and its
+   query; without commands in flight the model is the listener above (last report true); with one in flight the last
+   report can be an older size - the witness is stated, not hidden. *)
+From BT Require Import Proof.ResizeModel2.
+Theorem C18_reports_are_fresh : forall n ls r, In r (c_log (crun (cinit n) ls)) -> In (r_size r) (r_window r).
+Proof. exact reports_are_fresh. Qed.
+Print Assumptions C18_reports_are_fresh.
+Theorem C18_update_has_the_newest_report : forall n ls,
+  let s := crun (cinit n) ls in
+  match c_log s with [] => c_delivered s = None | r :: _ => c_delivered s = Some (r_size r) end.
+Proof. exact delivered_is_the_newest_report. Qed.
+Print Assumptions C18_update_has_the_newest_report.
+Theorem C18_last_report_true_without_commands : forall n ls, forallb is_listener_label ls = true ->
+  let s := crun (cinit n) ls in
+  c_pending s = false -> c_lst s = L2Wait -> c_delivered s = Some (c_cur s).
+Proof. exact last_report_true_without_commands. Qed.
+Print Assumptions C18_last_report_true_without_commands.
+Theorem C18_stale_report_can_arrive_last_refuted :
+  exists ls, let s := crun (cinit 3%nat) ls in
+  c_pending s = false /\ c_lst s = L2Wait /\ c_cmds s = [] /\ c_cur s = 7%nat /\ c_delivered s = Some 3%nat.
+Proof. eexists. exact stale_report_can_arrive_last. Qed.
+Print Assumptions C18_stale_report_can_arrive_last_refuted.
+Example C18_reports_nonvacuous :
+  let s := crun (cinit 80%nat) [CzQuery; CzDeliver; CzIssue; CzResize 100%nat; CzCmdQuery 0; CzTake; CzQuery; CzCmdDeliver 0; CzDeliver] in
+  map r_size (c_log s) = [100%nat; 100%nat; 80%nat] /\ map r_by_command (c_log s) = [false; true; false] /\
+  map r_window (c_log s) = [[100%nat]; [80%nat; 100%nat]; [80%nat]].
+Proof. vm_compute. repeat split. Qed.
